@@ -118,7 +118,28 @@ func serve(req *GenReq) (resp *GenResp) {
 		err = m.Mock(w, req.Args...)
 		return w.buf.String(), w, err, false
 	}
+	// history inside one process: before the second generation, two generations that
+	// fail AFTER rendering (a writer that refuses, a mock name go/format rejects).
+	// Whatever they leave behind in the library must not reach the next output.
+	poison := func() {
+		if m, err := moq.New(moq.Config{SrcDir: req.SrcDir, PkgName: req.PkgName, Formatter: req.Fmt,
+			StubImpl: req.Stub, SkipEnsure: req.SkipEnsure, WithResets: req.WithResets}); err == nil {
+			m.Mock(&countingWriter{failAfter: 0}, req.Args...)
+		}
+		if m, err := moq.New(moq.Config{SrcDir: req.SrcDir, PkgName: req.PkgName, Formatter: "gofmt",
+			StubImpl: req.Stub, SkipEnsure: req.SkipEnsure, WithResets: req.WithResets}); err == nil && len(req.Args) > 0 {
+			bad := append([]string{}, req.Args...)
+			bad[0] = strings.SplitN(bad[0], ":", 2)[0] + ":Bad-Name"
+			m.Mock(&countingWriter{failAfter: -1}, bad...)
+		}
+	}
 	for i := 0; i < n; i++ {
+		if i == 1 {
+			func() {
+				defer func() { recover() }()
+				poison()
+			}()
+		}
 		s, w, err, newErr := gen()
 		if err != nil && i > 0 {
 			// the first generation succeeded: a failure now is either the machine
